@@ -39,7 +39,7 @@ def run_scenario(args):
     try:
         r = Run(prog, entry, K=sc.get("K", 60), overrides=overrides, map_perm=sc.get("map_perm", False),
                 max_instr=sc.get("max_instr", 400000), reduce=sc.get("reduce", True), verbose=verbose,
-                spawn_limits=sc.get("spawn_limits"), sequential=sc.get("sequential", False), time_budget_s=sc.get("time_budget_s", TIME_BUDGET[0]),
+                spawn_limits=sc.get("spawn_limits"), sequential=sc.get("sequential", False), spawn_yield=sc.get("spawn_yield", False), time_budget_s=sc.get("time_budget_s", TIME_BUDGET[0]),
                 inits=sc.get("inits", [pkgpath] + ([] if pkgpath.endswith("/schema") else ["github.com/olive-io/bpmn/schema"])))
         r.execute()
         m = r.m
